@@ -153,9 +153,18 @@ def parse_match(text):
             return atom.atom(orig_text)
         except errors.MalformedAtom as e:
             if "*" not in text:
-                raise ParseError(str(e)) from e
+                if "*" not in orig_text.partition("::")[0]:
+                    raise ParseError(str(e)) from e
+                # only the slot/subslot is globbed: plain atom plus the
+                # slot/repo restrictions collected above
+                try:
+                    return packages.AndRestriction(*restrictions, atom.atom(text))
+                except errors.MalformedAtom as e2:
+                    raise ParseError(str(e2)) from e2
             # support globbed targets with version restrictions
-            return packages.AndRestriction(*parse_globbed_version(text, orig_text))
+            return packages.AndRestriction(
+                *restrictions, *parse_globbed_version(text, orig_text)
+            )
 
     r = list(map(convert_glob, tsplit))
     if not r[0] and not r[1]:
